@@ -156,6 +156,10 @@ func runHistory(w *W, idx int, cfg e1Cfg) {
 	nontrivial := h.stats["txn_committed"] >= 3
 	w.Eval(hashOf(cfg.Prop, h.before.hash(), h.stats["txn_committed"], h.stats["ops"]), nontrivial)
 	w.StatMax("max_live_rows", int64(live))
+	w.StatMax("enum_probe_chain_groups_in_alphabet", int64(len(enumChains())))
+	if len(h.g.enumHot) == 3 {
+		w.Stat("histories_concentrating_on_an_enum_probe_chain", 1)
+	}
 	w.StatMax("max_blocks_populated", int64(len(blocks)))
 	if idx < 2 {
 		n := len(h.log)
